@@ -100,7 +100,25 @@ func runC19(r *Run, stratum string) *Violation {
 	biz := func(txnID int, key []byte) {
 		uniq++
 		u := fmt.Sprintf("u%d", uniq)
-		switch g.Choose("cmd", 5) {
+		// a sibling key of the same tag (same slot), if the pool has one: for the two-key command below
+		var sib []byte
+		if i := strings.IndexByte(string(key), '}'); i > 0 {
+			for _, k := range keys {
+				if string(k) != string(key) && strings.HasPrefix(string(k), string(key[:i+1])) {
+					sib = k
+					break
+				}
+			}
+		}
+		switch g.Choose("cmd", 6) {
+		case 5:
+			if sib != nil && txnID == 0 {
+				// two keys of one slot: while that slot migrates and only one of them has moved, the node answers
+				// TRYAGAIN - an error the replay reports (restart), never a reason to apply the command later
+				add(KCmd, txnID, "smove", string(key), string(sib), u)
+				return
+			}
+			add(KCmd, txnID, "set", string(key), u)
 		case 0:
 			add(KCmd, txnID, "set", string(key), u)
 		case 1:
@@ -201,9 +219,14 @@ func runC19(r *Run, stratum string) *Violation {
 		lastPos[k] = -1
 		maxPos[k] = -1
 	}
+	var deferred *Violation         // see the TRYAGAIN case in scan
 	execInInc := map[int]int{}      // expected index -> incarnation that executed it last
 	redirected := map[int]string{}  // expected index -> kind of redirect a node answered
 	migratedSlots := map[int]bool{} // slots that have been under migration at some point of the run
+	redirectedInc := map[int]int{}  // expected index -> incarnation in which that redirect was answered
+	// per key: incarnation in which a command answered MOVED/ASK was followed in place BEHIND later commands of the key
+	// (the first listed finding); what the order rules see on that key until the next restart is that finding's other end
+	followedBehind := map[string]int{}
 	scan := func() {
 		for ; scanned < len(l.topo.Log); scanned++ {
 			e := l.topo.Log[scanned]
@@ -212,6 +235,7 @@ func runC19(r *Run, stratum string) *Violation {
 				if len(e.Args) > 0 {
 					if i, ok := expIdx[string(e.Args[len(e.Args)-1])]; ok {
 						redirected[i] = strings.Fields(e.Reply)[0]
+						redirectedInc[i] = incarnation
 					}
 				}
 				continue
@@ -244,6 +268,9 @@ func runC19(r *Run, stratum string) *Violation {
 					lastPos[k] = maxPos[k]
 				}
 			}
+			if kind := redirected[i]; p <= lastPos[k] && !stable && (kind == "MOVED" || kind == "ASK") && redirectedInc[i] == incarnation {
+				followedBehind[k] = incarnation
+			}
 			if p > lastPos[k]+1 {
 				mi := perKey[k][lastPos[k]+1]
 				missing := expected[mi]
@@ -252,10 +279,24 @@ func runC19(r *Run, stratum string) *Violation {
 				// MOVED answer comes later) while the next batch, routed by the refreshed map, already executes
 				// only keys of a slot that has been under migration are affected: a key whose slot never moved has one
 				// node, one ordered per-node pipeline, and no redirect to be overtaken at
-				if _, red := redirected[mi]; !stable && (red || (cfg.Pipeline && migratedSlots[simredis.HashSlot([]byte(k))])) {
+				kind, red := redirected[mi]
+				if !stable && kind != "TRYAGAIN" && (red || followedBehind[k] == incarnation || (cfg.Pipeline && migratedSlots[simredis.HashSlot([]byte(k))])) {
 					sig = "cluster target during slot migration: a redirected or stale-routed command was overtaken by a later, already pipelined command of the same key"
 				}
-				setV("C19.skip_or_invert", sig, "key %q: [%s] executed (node %d) while its predecessor [%s] has not been executed since the last rewind (redirect seen for it: %q)", k, fmtCmd(e.Name, e.Args), e.Node, fmtCmd(missing.Name, missing.Args), redirected[mi])
+				msg := fmt.Sprintf("key %q: [%s] executed (node %d) while its predecessor [%s] has not been executed since the last rewind (redirect seen for it: %q)", k, fmtCmd(e.Name, e.Args), e.Node, fmtCmd(missing.Name, missing.Args), redirected[mi])
+				if !stable && kind == "TRYAGAIN" {
+					// the predecessor was answered TRYAGAIN (its keys are split between the two nodes of a migration): the
+					// commands pipelined behind it to the same node execute, the error is reported afterwards. That skip is
+					// the second listed finding; it is held back until the end of the run, because what the tool does with
+					// the refused command afterwards is judged too: it may only come back through a replay in order
+					if deferred == nil {
+						deferred = &Violation{Property: "C19", Rule: "C19.skip_or_invert", Msg: msg,
+							Sig: "cluster target during slot migration: a command answered TRYAGAIN was skipped by later, already pipelined commands of its key before the reported restart"}
+						r.Logf("DEFERRED %s", msg)
+					}
+				} else {
+					setV("C19.skip_or_invert", sig, "%s", msg)
+				}
 			}
 			if cfg.Txn {
 				if inc, seen := execInInc[i]; seen && inc == incarnation {
@@ -491,7 +532,16 @@ func runC19(r *Run, stratum string) *Violation {
 		}
 		return true
 	}
-	for i := 0; i < 60 && viol == nil && !complete(); i++ {
+	// a replay that is still on its way through a repeated suffix has not settled: wait for it as well
+	settled := func() bool {
+		for k := range perKey {
+			if !fresh[k] && lastPos[k] < maxPos[k] {
+				return false
+			}
+		}
+		return true
+	}
+	for i := 0; i < 60 && viol == nil && !(complete() && settled()); i++ {
 		r.Settle()
 		if l.getPhase() == 2 {
 			if cfg.Txn && l.sendErr != nil {
@@ -544,6 +594,27 @@ func runC19(r *Run, stratum string) *Violation {
 				break
 			}
 		}
+	}
+	if viol == nil {
+		// per key, what was applied last must be the newest command the key has received: a command that comes back
+		// alone behind later ones (re-sent in place instead of through a replay in order) leaves the key in an older state
+		for k := range perKey {
+			if lastPos[k] < maxPos[k] && !fresh[k] {
+				e := expected[perKey[k][lastPos[k]]]
+				n := expected[perKey[k][maxPos[k]]]
+				sig := "per-key order broken: a command took effect before its predecessor on the same key"
+				if kind := redirected[perKey[k][lastPos[k]]]; !stable && (kind == "MOVED" || kind == "ASK" || followedBehind[k] == incarnation) {
+					// the first listed finding seen from its other end: the redirected command was followed in place, behind
+					// later commands of its key (which ran first after a restart, where the order rule starts afresh)
+					sig = "cluster target during slot migration: a redirected or stale-routed command was overtaken by a later, already pipelined command of the same key"
+				}
+				setV("C19.skip_or_invert", sig, "after the drain the last command applied to key %q is [%s] although [%s], which follows it in the source, had been applied before and was not applied again (redirect seen for the former: %q)", k, fmtCmd(e.Name, e.Args), fmtCmd(n.Name, n.Args), redirected[perKey[k][lastPos[k]]])
+				break
+			}
+		}
+	}
+	if viol == nil {
+		viol = deferred
 	}
 	r.NonTriv = len(expected) >= 3 && (stable || r.W.Faults["slot_migration"] > 0)
 	l.stop()
